@@ -27,3 +27,16 @@ package protobuf
 //@   recovers
 //@   nopanic
 //@   ensures er != nil
+
+// pooled scratch buffers are always emptied before they go back to the pool (otherwise a
+// rejected frame leaks into the next decode: wrong byte counts or spurious errors)
+//@ func (*encoder).DecodeFrom$2
+//@   props C11 C12
+//@   ghostvar clean bool = false
+//@   after call Buffer).Reset: clean = true
+//@   assert call Pool).Put: clean
+//@ func (*encoder).EncodeTo$2
+//@   props C11 C12
+//@   ghostvar clean bool = false
+//@   after call Buffer).Reset: clean = true
+//@   assert call Pool).Put: clean
